@@ -51,6 +51,7 @@ from pyrates.frontend.template.operator import OperatorTemplate
 from pyrates.ir.circuit import get_unique_label, CircuitIR, PyRatesException, PyRatesWarning
 from pyrates.ir.edge import EdgeIR
 from pyrates.ir.node import clear_ir_caches
+from pyrates.ir.circuit import clear_edge_caches
 
 __author__ = "Richard Gast, Daniel Rose"
 __status__ = "Development"
@@ -785,6 +786,11 @@ class CircuitTemplate(AbstractBaseTemplate):
         if not edge_values:
             edge_values = {}
         scalar_shape = (1,) if vectorize else ()
+
+        # the caches used to merge and label the nodes and edge operators of *this* circuit start empty: what an
+        # earlier compilation in the same process left in them does not belong to this circuit
+        clear_ir_caches()
+        clear_edge_caches()
 
         # turn nodes from templates into IRs
         ####################################
